@@ -222,7 +222,7 @@ def _potential_gain(func, test_if, hi, idx):
         return False
     carried, new = e.right.id, u(e.left)
     for st in iter_stmts(test_if.body):
-        if isinstance(st, ast.Assign) and any(u(t_) == carried for t_ in st.targets) and u(st.value) == new:
+        if any(u(t_) == carried and u(v_) == new for t_, v_ in assign_pairs(st)):
             return True
     return False
 
